@@ -196,6 +196,9 @@ pub fn cmd_exec(a: &[String]) -> i32 {
         }
     };
     install_panic_hook();
+    if std::env::var("VPSIM_TRACE").is_ok() {
+        crate::model::TRACE.store(true, Ordering::Relaxed);
+    }
     let cur = Arc::new(Mutex::new(sc.index));
     spawn_watchdog(cur);
     ctl::set_current(&sc);
